@@ -1,12 +1,15 @@
 package props
 
 import (
+	"bufio"
+	"bytes"
 	"errors"
 	"fmt"
 	"io"
 	"sort"
 	"strings"
 	"testing"
+	"testing/iotest"
 
 	"github.com/foxglove/mcap/go/mcap"
 	"pgregory.net/rapid"
@@ -208,17 +211,51 @@ type view struct {
 func readAllWays(file []byte, withLexer bool) ([]view, error) {
 	var vs []view
 	if withLexer {
-		for _, validate := range []bool{false, true} {
-			lr := mc.LexAll(bytesReader(file), mc.LexParams{AttCRC: true, ValidateCRC: validate, MaxEvents: 200000}, false)
-			if lr.Panic != "" {
-				return nil, pk.Failf("panic", "lexer(validate=%v): %s", validate, lr.Panic)
+		// the lexer over sources that deliver the bytes differently: all at once (seekable), one byte per Read,
+		// half of what is asked for, through a 16-byte bufio.Reader, through a pipe
+		sources := []struct {
+			name string
+			mk   func() (io.Reader, func())
+		}{
+			{"", func() (io.Reader, func()) { return bytesReader(file), func() {} }},
+			{", one byte per Read", func() (io.Reader, func()) { return iotest.OneByteReader(bytes.NewReader(file)), func() {} }},
+			{", half reads", func() (io.Reader, func()) { return iotest.HalfReader(bytes.NewReader(file)), func() {} }},
+			{", bufio(16)", func() (io.Reader, func()) { return bufio.NewReaderSize(bytes.NewReader(file), 16), func() {} }},
+			{", pipe", func() (io.Reader, func()) {
+				pr, pw := io.Pipe()
+				go func() {
+					for off := 0; off < len(file); off += 7 {
+						end := off + 7
+						if end > len(file) {
+							end = len(file)
+						}
+						if _, err := pw.Write(file[off:end]); err != nil {
+							return
+						}
+					}
+					pw.Close()
+				}()
+				return pr, func() { pr.Close() }
+			}},
+		}
+		for si, src := range sources {
+			for _, validate := range []bool{false, true} {
+				if si > 0 && validate != (si%2 == 0) {
+					continue // the extra sources alternate between validating and not
+				}
+				r, done := src.mk()
+				lr := mc.LexAll(r, mc.LexParams{AttCRC: true, ValidateCRC: validate, MaxEvents: 200000}, false)
+				done()
+				if lr.Panic != "" {
+					return nil, pk.Failf("panic", "lexer(validate=%v%s): %s", validate, src.name, lr.Panic)
+				}
+				s := strings.Join(neutralStream(lr.Events), "\n")
+				bad := lr.OpenErr != nil || !errors.Is(lr.Err, io.EOF)
+				if bad {
+					s += fmt.Sprintf("\nERR")
+				}
+				vs = append(vs, view{fmt.Sprintf("lexer(validate=%v%s)", validate, src.name), s, bad})
 			}
-			s := strings.Join(neutralStream(lr.Events), "\n")
-			bad := lr.OpenErr != nil || !errors.Is(lr.Err, io.EOF)
-			if bad {
-				s += fmt.Sprintf("\nERR")
-			}
-			vs = append(vs, view{fmt.Sprintf("lexer(validate=%v)", validate), s, bad})
 		}
 	}
 	modes := []struct {
